@@ -33,7 +33,10 @@ SCOPE = (
     "full lat x lon lattices incl. both poles and both antimeridian labels, in the -180..180 and "
     "the 0..360 longitude convention) and on seeded random sets (uniform on the sphere, N=12..60, "
     "thorough ..140, with near-coincident / near-antipodal clusters); Grid on seeded random, "
-    "lattice, duplicated, tiny (1e-6) and large (1e6) coordinates in 1..5 dimensions; rectangular "
+    "lattice, duplicated, tiny (1e-6) and large (1e6) coordinates in 1..5 dimensions, and on grids "
+    "far from the origin with close nodes (offsets 1e4..1e7, spacings 1e-1..1e2, 1..3 dimensions, "
+    "UTM-like, non-round; tolerance stays relative to the distance of the float32-rounded "
+    "coordinates, not to their magnitude); rectangular "
     "grids with 1..4 axes of 1..6 distinct values; GeoNetwork / SpatialNetwork on random graphs "
     "(undirected and directed) over such grids. Oracle input = the float32-rounded coordinates "
     "(what the grid stores). Tolerances: angular |err| < 2^-10 rad for every pair; for pairs with "
@@ -630,6 +633,32 @@ def build_cases(tier, seed):
             q.append((w * X[:, i] + (1 - w) * X[:, j]).tolist())
         q.append((X.mean(axis=1)).tolist())
         cases.append({"kind": "euclid", "key": "euclid-%d-s%d" % (r, seed), "X": X.tolist(), "queries": q})
+    # grids far from the origin with closely spaced, non-round coordinates (UTM-like): offsets
+    # 1e4..1e7, spacings 1e-1..1e2, 1..3 dimensions; the float32-rounded coordinates are the input
+    utm = np.array([[500123.37, 500127.81, 500131.02, 500140.66, 500123.37, 500190.45, 500124.12],
+                    [5400017.3, 5400021.9, 5400013.6, 5400030.2, 5400018.4, 5400095.7, 5400017.9]])
+    cases.append({"kind": "euclid", "key": "euclid-utm-fixed", "X": utm.tolist(),
+                  "queries": [[500125.0, 5400019.0], [500150.0, 5400050.0], utm[:, 3].tolist()]})
+    nfar = 36 if not thorough else 360
+    for r in range(nfar):
+        dim = 1 + r % 3
+        n = int(rng.randint(3, 31 if not thorough else 81))
+        off = (10.0 ** rng.uniform(4, 7, (dim, 1))) * rng.choice([-1.0, 1.0], (dim, 1))
+        sp = 10.0 ** rng.uniform(-1, 2)
+        if r % 4 == 3:
+            X = off + sp * rng.randint(-6, 7, (dim, n))                 # regular station lattice
+        else:
+            X = off + rng.uniform(-sp, sp, (dim, n)) * rng.uniform(1, 10, (dim, 1))
+        q = [X[:, int(rng.randint(n))].astype(np.float32).astype(float).tolist(), X.mean(axis=1).tolist()]
+        for _ in range(4):
+            i, j = rng.randint(n), rng.randint(n)
+            w = rng.uniform(-0.3, 1.3)
+            q.append((w * X[:, i] + (1 - w) * X[:, j]).tolist())
+        cases.append({"kind": "euclid", "key": "euclid-far-%d-s%d" % (r, seed), "X": X.tolist(), "queries": q})
+        if r % 3 == 0:
+            A = random_graph(rng, n, rng.uniform(0.2, 0.7), directed=bool(r % 2))
+            cases.append({"kind": "spatialnet", "key": "spatialnet-far-%d-s%d" % (r, seed), "X": X.tolist(),
+                          "adjacency": A.tolist(), "directed": bool(r % 2)})
     cases.append({"kind": "euclid", "key": "euclid-small-test-grid", "X": [[0, 5, 10, 15, 20, 25], [2.5, 5., 7.5, 10., 12.5, 15.]],
                   "queries": [[14.0, 9.0], [0.0, 0.0], [30.0, 30.0]]})
     # --- rectangular grids
